@@ -824,6 +824,7 @@ impl<F: Family> FamRunner<F> {
         }
     }
     pub fn progs(&self, set: &str) -> std::rc::Rc<Vec<Program<F>>> {
+        crate::prog::set_alt_api(set.ends_with("-alt"));
         let mut c = self.cache.borrow_mut();
         if let Some((s, p)) = c.as_ref() {
             if s == set {
@@ -926,7 +927,7 @@ pub fn worker_main(fam: &dyn FamilyDyn, set: &str, mode: &Mode, shard: usize, ns
 }
 
 fn spawn_worker(fam: &str, set: &str, mode: &Mode, shard: usize, nshards: usize, from: usize, only: Option<usize>, deadline_s: f64) -> std::process::Child {
-    let exe = std::env::current_exe().expect("current_exe");
+    let exe = Ok::<std::path::PathBuf, std::io::Error>(std::path::PathBuf::from("/proc/self/exe")).expect("current_exe");
     let mut c = Command::new(exe);
     c.arg("worker")
         .arg(fam)
